@@ -16,9 +16,11 @@ import (
 	"time"
 
 	"github.com/FollowTheProcess/spok/hash"
+	"github.com/FollowTheProcess/spok/parser"
 	"github.com/FollowTheProcess/spok/zzverif/vsched"
 
 	"verifharness/internal/ev"
+	"verifharness/internal/lang"
 	"verifharness/internal/pool"
 )
 
@@ -816,6 +818,176 @@ func schedReplay(path string) int {
 	bad := len(r.Panics) > 0 || r.Deadlock || r.Leaked > 0 || r.Livelock || (herr == nil && c.hasBad()) || (herr != nil && c.Prop == "C04")
 	if bad {
 		fmt.Printf("VIOLATION property=%s replay=%s\n", v.Property, path)
+		return 1
+	}
+	fmt.Println("no violation on replay")
+	return 0
+}
+
+// ---------------------------------------------------------------------------
+// C08, schedule part: each parse is a two-goroutine schedule (lexer goroutine and
+// parser over an unbuffered channel). Every interleaving of every short input.
+
+func init() {
+	checks["C08sched"] = c08SchedCheck
+	workers["sched08"] = c08SchedWorker
+	replays["schedmc-c08"] = c08SchedReplay
+}
+
+type c08SchedOut struct {
+	Inputs   int64          `json:"inputs"`
+	Execs    int64          `json:"execs"`
+	States   int64          `json:"states"`
+	MaxSched int64          `json:"max_schedules_per_input"`
+	Leaky    int64          `json:"inputs_leaving_the_lexer_goroutine_blocked"`
+	Viol     []ev.Violation `json:"viol"`
+}
+
+func c08SchedOne(x string, res *c08SchedOut) {
+	var outcome string
+	body := func() {
+		tree, err := parser.New(x).Parse()
+		if err != nil {
+			outcome = "E:" + err.Error()
+		} else {
+			outcome = "T:" + tree.String() + fmt.Sprintf("|%d", len(tree.Nodes))
+		}
+	}
+	seen := map[string][]int{}
+	report := func(cls, what string, choices []int) {
+		if len(res.Viol) < 20 {
+			res.Viol = append(res.Viol, ev.Violation{Engine: "schedmc-c08", Key: strconv.Quote(x) + " " + cls, Class: cls, What: fmt.Sprintf("input %s schedule %v: %s", strconv.Quote(x), choices, what),
+				Case: map[string]any{"input": x, "choices": choices}})
+		}
+	}
+	leaky := false
+	st := explore(vsched.Options{Budget: 5000}, body, "pruned", 0, 0, 200000, func(r *vsched.Result, choices []int) {
+		switch {
+		case len(r.Panics) > 0:
+			report("panic-in-goroutine", firstLines(r.Panics[0], 3), choices)
+		case r.Deadlock:
+			report("deadlock", "the parse never returns: "+strings.Join(r.BlockedAt, "; "), choices)
+		case r.Livelock:
+			report("livelock", "operation budget exceeded: lexer or parser spins", choices)
+		default:
+			if r.Leaked > 0 {
+				leaky = true
+			}
+			if _, ok := seen[outcome]; !ok {
+				seen[outcome] = choices
+			}
+		}
+	})
+	if len(seen) > 1 {
+		var outs []string
+		for o := range seen {
+			outs = append(outs, strconv.Quote(clip(o)))
+		}
+		sort.Strings(outs)
+		report("result-depends-on-schedule", fmt.Sprintf("%d different results over the interleavings: %s", len(seen), strings.Join(outs, " vs ")), nil)
+	}
+	res.Inputs++
+	res.Execs += st.Execs
+	res.States += st.StatesSeen
+	if st.Execs > res.MaxSched {
+		res.MaxSched = st.Execs
+	}
+	if leaky {
+		res.Leaky++
+	}
+}
+
+func c08SchedSpace(tier string) lang.SigmaSpace {
+	if tier == "thorough" {
+		return lang.SigmaSpace{N: 4}
+	}
+	return lang.SigmaSpace{N: 3}
+}
+
+// worker: mc worker sched08 <tier> <lo> <hi>
+func c08SchedWorker(args []string) {
+	sp := c08SchedSpace(args[0])
+	lo, _ := strconv.ParseInt(args[1], 10, 64)
+	hi, _ := strconv.ParseInt(args[2], 10, 64)
+	var res c08SchedOut
+	prog := pool.OpenProgress()
+	prog.Watchdog(60 * time.Second)
+	for i := lo; i < hi; i++ {
+		sp.Gen(i, func(in lang.Input) {
+			prog.Announce(i, 1)
+			c08SchedOne(in.Text, &res)
+		})
+	}
+	// a few structured inputs beyond the short strings
+	if lo == 0 {
+		for _, x := range []string{"# c\ntask a(\"x\", b) -> (\"o\", X) {\n    echo {{.X}}\n    go test ./...\n}\n\nX := join(\"a\", \"b\")\n", "task a() {\n echo a", "X := \"unterminated\ntask b() {}\n", "task a(", "task a() -> (\"o\" {"} {
+			c08SchedOne(x, &res)
+		}
+	}
+	os.Stdout.Write(pool.MustJSON(res))
+}
+
+func c08SchedCheck(tier string) int {
+	sp := c08SchedSpace(tier)
+	n := sp.Count()
+	per := (n + 127) / 128
+	var mu sync.Mutex
+	var total c08SchedOut
+	failed := false
+	pool.Parallel(int((n+per-1)/per), func(k int) {
+		lo, hi := int64(k)*per, int64(k+1)*per
+		if hi > n {
+			hi = n
+		}
+		out := pool.RunWorker([]string{"sched08", tier, strconv.FormatInt(lo, 10), strconv.FormatInt(hi, 10)}, nil, budget(tier), true)
+		mu.Lock()
+		defer mu.Unlock()
+		if out.Crashed() {
+			var culprit string
+			sp.Gen(out.Progress[0], func(in lang.Input) { culprit = in.Text })
+			total.Viol = append(total.Viol, ev.Violation{Engine: "schedmc-c08", Key: strconv.Quote(culprit) + " worker", Class: "process-crash-or-hang",
+				What: fmt.Sprintf("worker died or hung (exit=%d signal=%s timeout=%v) exploring the schedules of input %s: %s", out.ExitCode, out.Signal, out.TimedOut, strconv.Quote(culprit), firstLines(string(out.Stderr), 5)), Case: map[string]any{"input": culprit}})
+			return
+		}
+		var r c08SchedOut
+		if err := json.Unmarshal(out.Stdout, &r); err != nil {
+			failed = true
+			return
+		}
+		total.Inputs += r.Inputs
+		total.Execs += r.Execs
+		total.States += r.States
+		total.Leaky += r.Leaky
+		if r.MaxSched > total.MaxSched {
+			total.MaxSched = r.MaxSched
+		}
+		total.Viol = append(total.Viol, r.Viol...)
+	})
+	if failed {
+		ev.Fatal("C08 schedule part: bad worker output")
+	}
+	dst := os.Getenv("VERIF_C08_SCHED_OUT")
+	if dst == "" {
+		os.Stdout.Write(pool.MustJSON(total))
+		return 0
+	}
+	if err := os.WriteFile(dst, pool.MustJSON(total), 0o644); err != nil {
+		ev.Fatal("%v", err)
+	}
+	fmt.Printf("C08 schedule part: inputs=%d schedules=%d states=%d violations=%d\n", total.Inputs, total.Execs, total.States, len(total.Viol))
+	return 0
+}
+
+func c08SchedReplay(path string) int {
+	var v ev.Violation
+	data, _ := os.ReadFile(path)
+	json.Unmarshal(data, &v)
+	x, _ := v.Case["input"].(string)
+	var res c08SchedOut
+	c08SchedOne(x, &res)
+	fmt.Printf("replaying C08 (schedules) on input %s: %d schedules explored\n", strconv.Quote(x), res.Execs)
+	if len(res.Viol) > 0 {
+		fmt.Printf("  %s\nVIOLATION property=C08 replay=%s\n", res.Viol[0].What, path)
 		return 1
 	}
 	fmt.Println("no violation on replay")
